@@ -672,7 +672,7 @@ def eval_dyad_maximum(a, b, backend):
                     1.0|1.1  -->  1.1
 
     """
-    return backend.np.maximum(a, b)
+    return backend.vec_fn2(a, b, backend.np.maximum)  # np.maximum has no usable loop over nested lists
 
 
 def eval_dyad_minimum(a, b, backend):
@@ -699,7 +699,7 @@ def eval_dyad_minimum(a, b, backend):
                     1.0&1.1  -->  1.0
 
     """
-    return backend.np.minimum(a, b)
+    return backend.vec_fn2(a, b, backend.np.minimum)  # np.minimum has no usable loop over nested lists
 
 
 def eval_dyad_more(a, b, backend):
@@ -803,7 +803,7 @@ def eval_dyad_remainder(a, b, backend):
                    -7!-5  --> -2
 
     """
-    return backend.np.fmod(a, b)
+    return backend.vec_fn2(a, b, backend.np.fmod)  # np.fmod has no loop over nested lists
 
 
 def eval_dyad_reshape(a, b, backend):
